@@ -81,14 +81,16 @@ class Report:
         viol = [i for i in self.instances if i.status != "discharged"]
         if replay_key is not None:
             viol = [i for i in viol if i.key == replay_key]
-        unlisted = [i for i in viol if i.key not in open_keys]
-        listed = [i for i in viol if i.key in open_keys]
+        def base(k):
+            return k.split("@")[0]  # "@AB" etc. = the same instance seen under another feature set (thorough tier)
+        unlisted = [i for i in viol if base(i.key) not in open_keys]
+        listed = [i for i in viol if base(i.key) in open_keys]
         seen = set()
         for i in listed:
-            if i.key in seen:
+            if base(i.key) in seen:
                 continue
-            seen.add(i.key)
-            print("KNOWN-FINDING: property=%s %s [%s] %s" % (self.pid, open_keys[i.key].get("what", i.what), i.key, i.site))
+            seen.add(base(i.key))
+            print("KNOWN-FINDING: property=%s %s [%s] %s" % (self.pid, open_keys[base(i.key)].get("what", i.what), base(i.key), i.site))
         os.makedirs(os.path.join(OUT, "replay"), exist_ok=True)
         seen = set()
         for i in unlisted:
@@ -174,7 +176,8 @@ def import_rules(rep, modname, rules, prefix=None, key_prefixes=None):
     """Run another property's rule module on a scratch report (once per process) and copy the instances of the named rules
     into `rep` (same keys, so a violation is reported under this property as well)."""
     import importlib
-    key = (modname, rep.tier)
+    import facts as _facts
+    key = (modname, rep.tier, tuple(sorted(_facts.ALIAS.items())))
     if key not in _sub_cache:
         sub = Report(modname.upper(), rep.tier)
         importlib.import_module(modname).run(sub)
